@@ -1,12 +1,12 @@
 """C01 demonstrations (FIXED: b73f8b6 remove-future-imports trailing comma, 1ca05a7 fix-empty-sequence-comparison
-parentheses, db0142e fix-assert-tuple multi-line elements): the rewritten file did not parse.
-usage: c01_invalid_python_shapes.py <future|emptyseq|asserttuple>      exit 1 = defect present."""
+parentheses, db0142e fix-assert-tuple multi-line elements, 27e31ea use-walrus-if tuple value): the rewritten file did not parse.
+usage: c01_invalid_python_shapes.py <future|emptyseq|asserttuple|walrus>      exit 1 = defect present."""
 import sys
 
 from harness import stmtfam
 
 which = sys.argv[1] if len(sys.argv) > 1 else "future"
-entry = {"future": 10, "asserttuple": 12, "emptyseq": 13}[which]
+entry = {"future": 10, "asserttuple": 12, "emptyseq": 13, "walrus": 15}[which]
 for ctx in (0, 1):
     v = stmtfam.check(entry, ctx, 0, 0, 0, 0)
     if v:
